@@ -1,13 +1,14 @@
 import Mimium.Proofs.ModResOrder
 /-!
-# C17: re-exports (`pub use`) after /repo c6822e4 + 3b64798
+# C17: re-exports (`pub use`) after /repo c6822e4 + 3b64798 + the repair of F12-cycle
 
 * `AliasKeysVis`: every alias key with a module part has a visibility entry — an invariant of every `ModuleInfo` the
   flattening builds (`lowerInfo_aliasKeysVis`).  With it, a path reference whose alias chain moves always has its
   *target* checked (`convertQVar_sound_target`, `Proofs/ModRes.lean`).
-* what the visibility map holds for a name that no `pub use` exports: the last declaration of that name
-  (`lowerInfo_vis_of_not_exported`); hence the map is faithful to the declarations when declared names are distinct and no
-  re-exported name is a declared name (`visFaithful_of_fresh`).
+* since the repair of F12-cycle (`entry().or_insert`) a re-export never replaces a visibility entry, while a declaration
+  always does: for every declared name the map holds the **last declaration** (`lowerInfo_vis_last_decl`), whatever
+  re-exports the walk contains; hence the map is faithful to the declarations as soon as declared names are distinct
+  (`visFaithful_of_nodup`).
 -/
 namespace Mimium.ModRes
 
@@ -25,9 +26,15 @@ theorem registerAlias_aliasKeysVis {i : Info} (h : AliasKeysVis i) (pub : Bool) 
   | true =>
     simp only [↓reduceIte, get?_cons] at hs ⊢
     by_cases e : pre ++ [a] = k
-    · simp [e]
-    · simp only [if_neg e, if_neg hak] at hs ⊢
-      exact h k hk hs
+    · subst e
+      split
+      · rename_i h1; exact h1
+      · simp [get?_cons]
+    · simp only [if_neg e, if_neg hak] at hs
+      have := h k hk hs
+      split
+      · exact this
+      · rw [get?_cons, if_neg e]; exact this
 
 theorem processUse_aliasKeysVis {i : Info} (h : AliasKeysVis i) (pub : Bool) (path : List Name) (t : UseTarget)
     (pre : List Name) : AliasKeysVis (processUse pub path t pre i) := by
@@ -77,80 +84,42 @@ theorem foldl_step_aliasKeysVis (evs : List Ev) : ∀ {i : Info}, AliasKeysVis i
 theorem lowerInfo_aliasKeysVis (evs : List Ev) : AliasKeysVis (lowerInfo evs) :=
   foldl_step_aliasKeysVis evs (by intro k _ hs; simp [get?] at hs)
 
-/-! ### the names `pub use` statements export -/
+/-! ### a re-export never replaces a visibility entry (`entry().or_insert`), a declaration always does -/
 
-/-- the names one `use` statement writes into the visibility map: `prefix$alias` for every alias of a `pub use` -/
-def exportedBy (pre : List Name) (pub : Bool) (path : List Name) : UseTarget → List Sym
-  | .single => if pub then (match path.getLast? with | some a => [pre ++ [a]] | none => []) else []
-  | .multiple names => if pub then names.map (fun n => pre ++ [n]) else []
-  | .wildcard => []
-
-/-- all re-exported names of a walk -/
-def exportedNames : List Ev → List Sym
-  | [] => []
-  | .use pre pub path t :: rest => exportedBy pre pub path t ++ exportedNames rest
-  | _ :: rest => exportedNames rest
-
-/-- **no re-exported name is the name of a declared function** (a `Bool`, syntactic: it looks only at the statements) -/
-def reexportsFresh (evs : List Ev) : Bool :=
-  (exportedNames evs).all (fun s => !((fnDecls evs).map (·.1)).contains s)
-
-theorem exportedNames_of_noPubUse (evs : List Ev) (h : noPubUse evs = true) : exportedNames evs = [] := by
-  induction evs with
-  | nil => rfl
-  | cons ev rest ih =>
-    cases ev with
-    | use pre pub path t =>
-      simp only [noPubUse, Bool.and_eq_true, Bool.not_eq_true'] at h
-      obtain ⟨hp, hr⟩ := h
-      subst hp
-      simp only [exportedNames, ih hr, List.append_nil]
-      cases t <;> simp [exportedBy]
-    | fn pre pub x ps b => exact ih (by simpa [noPubUse] using h)
-    | modOpen pre x => exact ih (by simpa [noPubUse] using h)
-    | letS pre pub x e => exact ih (by simpa [noPubUse] using h)
-
-theorem reexportsFresh_of_noPubUse (evs : List Ev) (h : noPubUse evs = true) : reexportsFresh evs = true := by
-  simp [reexportsFresh, exportedNames_of_noPubUse evs h]
-
-/-! ### the visibility map at a name that is not re-exported -/
-
-theorem registerAlias_vis_other (i : Info) (pub : Bool) (pre : List Name) (a : Name) (m : Sym) (s : Sym)
-    (hs : pub = true → pre ++ [a] ≠ s) : get? (registerAlias i pub pre a m).vis s = get? i.vis s := by
+theorem registerAlias_vis_keep (i : Info) (pub : Bool) (pre : List Name) (a : Name) (m : Sym) (s : Sym) (v : Bool)
+    (h : get? i.vis s = some v) : get? (registerAlias i pub pre a m).vis s = some v := by
   unfold registerAlias
   cases pub with
-  | false => rfl
-  | true => simp only [↓reduceIte, get?_cons, if_neg (hs rfl)]
+  | false => exact h
+  | true =>
+    simp only [↓reduceIte]
+    split
+    · exact h
+    · rename_i hn
+      rw [get?_cons, if_neg]
+      · exact h
+      · intro e
+        simp only at e
+        rw [e, h] at hn
+        simp at hn
 
-theorem processUse_vis_other (i : Info) (pub : Bool) (path : List Name) (t : UseTarget) (pre : List Name) (s : Sym)
-    (hs : s ∉ exportedBy pre pub path t) : get? (processUse pub path t pre i).vis s = get? i.vis s := by
+theorem processUse_vis_keep (i : Info) (pub : Bool) (path : List Name) (t : UseTarget) (pre : List Name) (s : Sym)
+    (v : Bool) (h : get? i.vis s = some v) : get? (processUse pub path t pre i).vis s = some v := by
   unfold processUse
   cases t with
   | single =>
     simp only
-    cases hg : path.getLast? with
-    | none => rfl
-    | some a =>
-      simp only
-      apply registerAlias_vis_other
-      intro hp e
-      apply hs
-      simp [exportedBy, hp, hg, e]
-  | wildcard => rfl
+    split
+    · exact registerAlias_vis_keep _ _ _ _ _ _ _ h
+    · exact h
+  | wildcard => exact h
   | multiple names =>
     simp only
-    have hs' : ∀ n ∈ names, pub = true → pre ++ [n] ≠ s := by
-      intro n hn hp e
-      apply hs
-      simp only [exportedBy, hp, ↓reduceIte, List.mem_map]
-      exact ⟨n, hn, e⟩
-    clear hs
     induction names generalizing i with
-    | nil => rfl
+    | nil => exact h
     | cons n rest ih =>
       simp only [List.foldl_cons]
-      rw [ih _ (fun n' hn' => hs' n' (List.mem_cons_of_mem _ hn'))]
-      exact registerAlias_vis_other _ _ _ _ _ _ (hs' n List.mem_cons_self)
+      exact ih _ (registerAlias_vis_keep _ _ _ _ _ _ _ h)
 
 theorem useLoaded_vis (i : Info) (pre path : List Name) : (useLoaded i pre path).vis = i.vis := by
   unfold useLoaded
@@ -158,37 +127,28 @@ theorem useLoaded_vis (i : Info) (pre path : List Name) : (useLoaded i pre path)
   · split <;> rfl
   · rfl
 
-/-- for a name that no `pub use` of the walk exports, the visibility map holds the **last declaration** of that name
-(or, if it is not declared, whatever the map held before) -/
-theorem foldl_step_vis_of_not_exported (evs : List Ev) (s : Sym) (hs : s ∉ exportedNames evs) : ∀ i : Info,
-    get? (evs.foldl step i).vis s =
-      match get? (fnDecls evs).reverse s with | some v => some v | none => get? i.vis s := by
+/-- an entry of the visibility map survives every statement that does not *declare* a function of that name -/
+theorem foldl_step_vis_keep (evs : List Ev) (s : Sym) (v : Bool) (hnd : ∀ d ∈ fnDecls evs, d.1 ≠ s) : ∀ i : Info,
+    get? i.vis s = some v → get? (evs.foldl step i).vis s = some v := by
   induction evs with
-  | nil => intro i; rfl
+  | nil => intro i h; exact h
   | cons ev rest ih =>
-    intro i
+    intro i h
     simp only [List.foldl_cons]
     cases ev with
     | fn pre pub x ps b =>
-      rw [ih (by simpa [exportedNames] using hs)]
-      simp only [fnDecls, List.reverse_cons, get?_append]
-      cases get? (fnDecls rest).reverse s with
-      | some v => rfl
-      | none =>
-        simp only [step, get?_cons, get?]
-        split <;> rfl
-    | modOpen pre x => exact ih (by simpa [exportedNames] using hs) _
-    | letS pre pub x e => exact ih (by simpa [exportedNames] using hs) _
+      apply ih (fun d hd => hnd d (by simp [fnDecls, hd]))
+      simp only [step, get?_cons]
+      rw [if_neg (hnd (pre ++ [x], pub) (by simp [fnDecls]))]
+      exact h
+    | modOpen pre x => exact ih hnd _ h
+    | letS pre pub x e => exact ih hnd _ h
     | use pre pub path t =>
-      simp only [exportedNames, List.mem_append, not_or] at hs
-      rw [ih hs.2, step_use_eq, processUse_vis_other _ _ _ _ _ _ hs.1, useLoaded_vis]
-      rfl
-
-theorem lowerInfo_vis_of_not_exported (evs : List Ev) (s : Sym) (hs : s ∉ exportedNames evs) :
-    get? (lowerInfo evs).vis s = get? (fnDecls evs).reverse s := by
-  unfold lowerInfo
-  rw [foldl_step_vis_of_not_exported evs s hs]
-  cases get? (fnDecls evs).reverse s <;> rfl
+      apply ih hnd
+      rw [step_use_eq]
+      apply processUse_vis_keep
+      rw [useLoaded_vis]
+      exact h
 
 theorem get?_isSome_of_mem {α : Type} {l : List (Sym × α)} {s : Sym} {v : α} (h : (s, v) ∈ l) :
     ∃ w, get? l s = some w := by
@@ -203,33 +163,59 @@ theorem get?_isSome_of_mem {α : Type} {l : List (Sym × α)} {s : Sym} {v : α}
       · exact absurd (by rw [← e]) hne
       · exact ih hm
 
-/-- a function declared private, all of whose declarations are private and whose name no `pub use` exports, is private
-in the visibility map -/
+/-- for every declared function name the visibility map holds the **last declaration** of that name — whatever `use`
+and `pub use` statements the walk contains, wherever they stand -/
+theorem foldl_step_vis_last_decl (evs : List Ev) (s : Sym) (v : Bool) : get? (fnDecls evs).reverse s = some v →
+    ∀ i : Info, get? (evs.foldl step i).vis s = some v := by
+  induction evs with
+  | nil => intro h; simp [fnDecls, get?] at h
+  | cons ev rest ih =>
+    intro h i
+    simp only [List.foldl_cons]
+    cases ev with
+    | fn pre pub x ps b =>
+      simp only [fnDecls, List.reverse_cons, get?_append] at h
+      cases hr : get? (fnDecls rest).reverse s with
+      | some w =>
+        rw [hr] at h
+        simp only [Option.some.injEq] at h
+        subst h
+        exact ih hr _
+      | none =>
+        rw [hr] at h
+        simp only [get?] at h
+        apply foldl_step_vis_keep
+        · intro d hd e
+          obtain ⟨w, hw⟩ := get?_isSome_of_mem (s := d.1) (v := d.2) (List.mem_reverse.mpr hd)
+          rw [e, hr] at hw
+          exact absurd hw (by simp)
+        · simp only [step, get?_cons]
+          split at h
+          · rename_i e; rw [if_pos e]; exact h
+          · simp at h
+    | modOpen pre x => exact ih (by simpa [fnDecls] using h) _
+    | letS pre pub x e => exact ih (by simpa [fnDecls] using h) _
+    | use pre pub path t => exact ih (by simpa [fnDecls] using h) _
+
+theorem lowerInfo_vis_last_decl (evs : List Ev) (s : Sym) (v : Bool) (h : get? (fnDecls evs).reverse s = some v) :
+    get? (lowerInfo evs).vis s = some v :=
+  foldl_step_vis_last_decl evs s v h {}
+
+/-- a function declared private, none of whose declarations is `pub`, is private in the visibility map -/
 theorem vis_private_of_consistent (evs : List Ev) (s : Sym) (hd : (s, false) ∈ fnDecls evs)
-    (hc : (s, true) ∉ fnDecls evs) (hx : s ∉ exportedNames evs) : get? (lowerInfo evs).vis s = some false := by
-  rw [lowerInfo_vis_of_not_exported evs s hx]
+    (hc : (s, true) ∉ fnDecls evs) : get? (lowerInfo evs).vis s = some false := by
   obtain ⟨w, hw⟩ := get?_isSome_of_mem (List.mem_reverse.mpr hd)
-  rw [hw]
   cases w with
-  | false => rfl
+  | false => exact lowerInfo_vis_last_decl evs s false hw
   | true => exact absurd (List.mem_reverse.mp (get?_mem hw)) hc
 
-/-- distinct declared names and fresh re-exported names make the visibility map faithful to the declarations -/
-theorem visFaithful_of_fresh (evs : List Ev) (hnd : ((fnDecls evs).map (·.1)).Nodup)
-    (hfr : reexportsFresh evs = true) : visFaithful evs = true := by
+/-- distinct declared names make the visibility map faithful to the declarations -/
+theorem visFaithful_of_nodup (evs : List Ev) (hnd : ((fnDecls evs).map (·.1)).Nodup) : visFaithful evs = true := by
   unfold visFaithful
   rw [List.all_eq_true]
   intro d hd
   simp only [decide_eq_true_eq]
-  have hx : d.1 ∉ exportedNames evs := by
-    intro hm
-    have := List.all_eq_true.mp hfr _ hm
-    simp only [Bool.not_eq_true'] at this
-    have hc : ((fnDecls evs).map (·.1)).contains d.1 = true :=
-      List.contains_iff_mem.mpr (List.mem_map.mpr ⟨d, hd, rfl⟩)
-    rw [hc] at this
-    exact absurd this (by simp)
-  rw [lowerInfo_vis_of_not_exported evs d.1 hx]
+  apply lowerInfo_vis_last_decl
   apply get?_of_mem_nodup
   · rw [List.map_reverse, List.Nodup, List.pairwise_reverse]
     exact hnd.imp (fun h => Ne.symm h)
